@@ -11,6 +11,7 @@ package main
 
 import (
 	"fmt"
+	"go/ast"
 	"go/token"
 	"sync"
 	"go/types"
@@ -278,9 +279,7 @@ func (f *Frame) wfTerms(v *Val) []*Term {
 				if lo, hi, ok := intRange(v.T); ok && !v.X.IsLit() {
 					out = append(out, Le(lo, v.X), Le(v.X, hi))
 				}
-				if _, k, ok := scalarSortOf(v.T, f.E.Mode); ok && k == "ref" && !v.X.IsLit() {
-					out = append(out, Ge(v.X, IntLit(0)))
-				}
+				_ = v // references may be negative (inner objects of embedded structs)
 			}
 		case VBytes:
 			if !v.Off.IsLit() {
@@ -926,6 +925,28 @@ func (f *Frame) loopEnvFor(li *loopInfo, over map[*ssa.Phi]*Val) *loopEnv {
 			}
 			if v := f.vals[phi]; v != nil {
 				env.phis[phi.Comment] = v
+			}
+		}
+	}
+	// local variables assigned once before the loop: the closest dominating
+	// debug reference (source identifier -> SSA value)
+	for b := li.header.Idom(); b != nil; b = b.Idom() {
+		for i := len(b.Instrs) - 1; i >= 0; i-- {
+			dr, ok := b.Instrs[i].(*ssa.DebugRef)
+			if !ok || dr.IsAddr {
+				continue
+			}
+			id, ok := dr.Expr.(*ast.Ident)
+			if !ok {
+				continue
+			}
+			if _, seen := env.phis[id.Name]; seen {
+				continue
+			}
+			if v, ok := f.vals[dr.X]; ok && v != nil {
+				env.phis[id.Name] = v
+			} else if _, isConst := dr.X.(*ssa.Const); isConst {
+				env.phis[id.Name] = f.val(dr.X)
 			}
 		}
 	}
